@@ -90,28 +90,47 @@ def closeSilent (s : St) (inReq : Bool) : St :=
 
 /-- body complete: `delegate.finish()`, the application answers, `_finish_request` -/
 def finishReq (s : St) : St :=
-  let s := s.emit [.fin, .w200]
-  if s.ka then { s with phase := .headers }
-  else { (s.emit [.closed]) with phase := .closed, buf := [] }
+  if s.ka then { (s.emit [.fin, .w200]) with phase := .headers }
+  else { (s.emit [.fin, .w200, .closed]) with phase := .closed, buf := [] }
+
+/-- does a `\n\r?\n` start here?  its length -/
+def headEndHere : Str → Option Nat
+  | 10 :: 10 :: _ => some 2
+  | 10 :: 13 :: 10 :: _ => some 3
+  | _ => none
 
 /-- end offset of the first match of `\r?\n\r?\n` = end of the first `\n\r?\n` -/
 def findHeadEnd : Str → Option Nat
   | [] => none
   | c :: cs =>
-    if c = 10 then
-      match cs with
-      | 10 :: _ => some 2
-      | 13 :: 10 :: _ => some 3
-      | _ => (findHeadEnd cs).map (· + 1)
-    else (findHeadEnd cs).map (· + 1)
+    match headEndHere (c :: cs) with
+    | some n => some n
+    | none => (findHeadEnd cs).map (· + 1)
+
+def crlfHere : Str → Bool
+  | 13 :: 10 :: _ => true
+  | _ => false
 
 /-- start offset of the first CRLF -/
 def findCrlf : Str → Option Nat
   | [] => none
-  | c :: cs =>
-    match c, cs with
-    | 13, 10 :: _ => some 0
-    | _, _ => (findCrlf cs).map (· + 1)
+  | c :: cs => if crlfHere (c :: cs) then some 0 else (findCrlf cs).map (· + 1)
+
+/-- `_read_body` has decided (`none` = HTTPInputError) -/
+def startBody (s : St) : Option BodyKind → St
+  | none => reject400 s true
+  | some .none => finishReq s
+  | some (.fixed 0) => finishReq s
+  | some (.fixed (n + 1)) => { s with phase := .fixed (n + 1) }
+  | some .chunked => { s with phase := .chunkSize 0 }
+
+/-- the head was accepted: `headers_received` (the delegate may override the body limit), `100 Continue`,
+    then `_read_body` -/
+def startReq (cfg : Cfg) (s : St) (m t v : Str) (h : Hdrs) (ka : Bool) : St :=
+  startBody
+    (({ s with idx := s.idx + 1, ka := ka, limit := effLimit cfg s.idx, got := 0 }).emit
+      (if hGet h kExpect = some k100Continue then [.req m t v (hAll h), .w100] else [.req m t v (hAll h)]))
+    (bodyKind (effLimit cfg s.idx) h)
 
 /-- a complete header block has been read (`s.buf` is already what follows it) -/
 def onHead (cfg : Cfg) (s : St) (block : Str) : St :=
@@ -119,21 +138,11 @@ def onHead (cfg : Cfg) (s : St) (block : Str) : St :=
   | none => reject400 s false
   | some ((m, t, v), h) =>
     match canKeepAlive cfg.noKeepAlive m v h with
-    | none => reject400 s false
+    | none => reject400 s false                 -- raised before `headers_received`
     | some ka =>
       match hostCheck v h with
-      | none => reject400 s true
-      | some _ =>
-        let limit := effLimit cfg s.idx
-        let s := { s with idx := s.idx + 1, ka := ka, limit := limit, got := 0 }
-        let s := s.emit [.req m t v (hAll h)]
-        let s := if hGet h kExpect = some k100Continue then s.emit [.w100] else s
-        match bodyKind limit h with
-        | none => reject400 s true
-        | some .none => finishReq s
-        | some (.fixed 0) => finishReq s
-        | some (.fixed (n + 1)) => { s with phase := .fixed (n + 1) }
-        | some .chunked => { s with phase := .chunkSize 0 }
+      | none => reject400 s true                -- raised inside `headers_received`
+      | some _ => startReq cfg s m t v h ka
 
 def stepHeaders (cfg : Cfg) (s : St) : Option St :=
   match findHeadEnd s.buf with
@@ -142,48 +151,44 @@ def stepHeaders (cfg : Cfg) (s : St) : Option St :=
     else some (onHead cfg { s with buf := s.buf.drop k } (s.buf.take k))
   | none => if s.buf.length > cfg.maxHeader then some (closeSilent s false) else none
 
+/-- `data_received(first k buffered bytes)` -/
+def takeBody (s : St) (k : Nat) : St := { (s.deliver (s.buf.take k)) with buf := s.buf.drop k }
+
+/-- `read_bytes(min(chunk_size, rem), partial=True)`: whatever is buffered, at most `rem` -/
 def stepFixed (s : St) (rem : Nat) : Option St :=
-  if s.buf.isEmpty then none
-  else
-    let k := min rem s.buf.length
-    let s' := { (s.deliver (s.buf.take k)) with buf := s.buf.drop k }
-    if rem - k = 0 then some (finishReq s') else some { s' with phase := .fixed (rem - k) }
+  if s.buf.isEmpty || rem == 0 then none      -- `fixed 0` is never entered (a zero Content-Length finishes at once)
+  else if rem ≤ s.buf.length then some (finishReq (takeBody s rem))
+  else some { (takeBody s s.buf.length) with phase := .fixed (rem - s.buf.length) }
 
 def stepChunkSize (s : St) (total : Nat) : Option St :=
   match findCrlf s.buf with
   | some loc =>
     if loc + 2 > chunkLineMax then some (closeSilent s true)
     else
-      let s' := { s with buf := s.buf.drop (loc + 2) }
       match parseHexInt (s.buf.take loc) with
-      | none => some (reject400 s' true)
-      | some 0 => some { s' with phase := .lastCrlf }
+      | none => some (reject400 s true)
+      | some 0 => some { s with buf := s.buf.drop (loc + 2), phase := .lastCrlf }
       | some (n + 1) =>
-        if total + (n + 1) > s.limit then some (reject400 s' true)
-        else some { s' with phase := .chunkData (n + 1) (total + (n + 1)) }
+        if total + (n + 1) > s.limit then some (reject400 s true)
+        else some { s with buf := s.buf.drop (loc + 2), phase := .chunkData (n + 1) (total + (n + 1)) }
   | none => if s.buf.length > chunkLineMax then some (closeSilent s true) else none
 
 def stepChunkData (s : St) (rem total : Nat) : Option St :=
-  if s.buf.isEmpty then none
-  else
-    let k := min rem s.buf.length
-    let s' := { (s.deliver (s.buf.take k)) with buf := s.buf.drop k }
-    if rem - k = 0 then some { s' with phase := .chunkCrlf total }
-    else some { s' with phase := .chunkData (rem - k) total }
+  if s.buf.isEmpty || rem == 0 then none      -- `chunkData 0 _` is never entered (a zero size is the last chunk)
+  else if rem ≤ s.buf.length then some { (takeBody s rem) with phase := .chunkCrlf total }
+  else some { (takeBody s s.buf.length) with phase := .chunkData (rem - s.buf.length) total }
 
 /-- after the `fix:` commit a bad terminator after chunk data is an HTTPInputError (it was an `assert`) -/
 def stepChunkCrlf (s : St) (total : Nat) : Option St :=
   match s.buf with
   | a :: b :: rest =>
-    let s' := { s with buf := rest }
-    if a = 13 ∧ b = 10 then some { s' with phase := .chunkSize total } else some (reject400 s' true)
+    if a = 13 ∧ b = 10 then some { s with buf := rest, phase := .chunkSize total } else some (reject400 s true)
   | _ => none
 
 def stepLastCrlf (s : St) : Option St :=
   match s.buf with
   | a :: b :: rest =>
-    let s' := { s with buf := rest }
-    if a = 13 ∧ b = 10 then some (finishReq s') else some (reject400 s' true)
+    if a = 13 ∧ b = 10 then some (finishReq { s with buf := rest }) else some (reject400 s true)
   | _ => none
 
 /-- one resumption of the coroutine: `none` = it blocks (needs more input) or the connection is closed -/
@@ -208,7 +213,11 @@ def drainF (cfg : Cfg) : Nat → St → St
     (`Lemmas.drain_unfold`) -/
 def drain (cfg : Cfg) (s : St) : St := drainF cfg (s.buf.length + 1) s
 
-def St.app (s : St) (seg : Str) : St := { s with buf := s.buf ++ seg }
+/-- bytes reach the read buffer (a closed stream ignores them) -/
+def St.app (s : St) (seg : Str) : St :=
+  match s.phase with
+  | .closed => s
+  | _ => { s with buf := s.buf ++ seg }
 
 /-- bytes arrive -/
 def feed (cfg : Cfg) (s : St) (seg : Str) : St := drain cfg (s.app seg)
